@@ -40,7 +40,7 @@ import (
 //          verdict on the probe tube has been executed — closed (EOF) or handed to a handler.
 // Commands are never really executed: thunks.StartCmd runs /bin/true instead.
 
-const e2eWait = 10 * time.Second
+const e2eWait = 6 * time.Second
 
 type chain struct {
 	leafKey        *keys.X25519KeyPair
@@ -440,6 +440,8 @@ func runE2E(in *bufio.Scanner, out *bufio.Writer) {
 func hx(s string) string { return HexOrDash([]byte(s)) }
 
 func genE2E(g *GenCtx) {
+	g.R = NewRng(g.R.U64() + uint64(g.Part)*0x9E3779B97F4A7C15) // parts draw different random cases
+
 	n := 24
 	if g.Thorough() {
 		n = 400 / g.Parts
